@@ -148,7 +148,7 @@ def run_case(case):
                 tags.append("propagate_evidence+evidence_on_AD_head")
             elif vec.get("propagate_evidence") and d[0] == "instance-set:zero-probability-instance":
                 tags.append("propagate_evidence")
-            if vec.get("pw") and d[0] == "instance-set:zero-probability-instance" and F.get("extreme_p"):
+            if vec.get("pw") and not vec.get("propagate_evidence") and d[0] == "instance-set:zero-probability-instance" and F.get("extreme_p"):
                 tags.append("propagate_weights+zero_probability_fact")
             if vec.get("keep_all"):
                 tags.append("keep_all")
